@@ -271,6 +271,12 @@ def materialise(root, files, dirs=(), links=()):
                 os.makedirs(os.path.dirname(p), exist_ok=True)
                 os.symlink(os.path.relpath(t, os.path.dirname(p)), p)
             continue
+        if len(entry) > 2 and entry[2] == "symfile":
+            # a second name for a regular file of the payload (relative symbolic link)
+            if os.path.isfile(t) and not os.path.lexists(p):
+                os.makedirs(os.path.dirname(p), exist_ok=True)
+                os.symlink(os.path.relpath(t, os.path.dirname(p)), p)
+            continue
         if os.path.isfile(p) and os.path.isfile(t):
             os.remove(p)
             os.link(t, p)
